@@ -453,6 +453,9 @@ func wireGenOp(k *kernel.Kernel, token string, proto int) *wireOp {
 		k.Fault("req.timestamp-off")
 	case 2:
 		op.tsMode, op.ts = 2, []int64{1, 1700000000000000, -5, 1 << 60}[tp.Next(4)]
+		if tp.Chance(1, 12) {
+			op.ts = 0
+		}
 		k.Fault("req.explicit-timestamp")
 	}
 	if proto >= 4 && tp.Chance(1, 4) {
@@ -744,7 +747,10 @@ func wireCheckTimestamp(k *kernel.Kernel, what string, op *wireOp, has bool, ts 
 			k.Violate("C03", "C03/timestamp", "%s: timestamp on the wire although DefaultTimestamp(false)", what)
 		}
 	case 2:
-		if !has || ts != op.ts {
+		if has && op.ts == 0 && ts != 0 {
+			// its own signature: this input is a recorded finding (known_findings.json)
+			k.Violate("C03", "C03/timestamp-zero-sent-as-current-time", "%s: the caller fixed the timestamp 0 (WithTimestamp(0)); the wire carries %d", what, ts)
+		} else if !has || ts != op.ts {
 			k.Violate("C03", "C03/timestamp", "%s: timestamp present=%v %d, caller fixed %d", what, has, ts, op.ts)
 		}
 	default:
